@@ -48,8 +48,9 @@ func IsTruthy(val any) bool {
 	}
 }
 
-// isNamedNumericZero reports whether val is the zero value of a defined
-// (named) numeric type such as time.Duration.
+// isNamedNumericZero reports whether val is a falsy value of a defined (named)
+// type: the zero of a numeric type such as time.Duration, false of a bool type,
+// the empty string (or "false") of a string type.
 func isNamedNumericZero(val any) bool {
 	rv := reflect.ValueOf(val)
 	switch rv.Kind() {
@@ -59,6 +60,12 @@ func isNamedNumericZero(val any) bool {
 		return rv.Uint() == 0
 	case reflect.Float32, reflect.Float64:
 		return rv.Float() == 0
+	case reflect.Bool:
+		// a defined bool type (type Flag bool): false is falsy
+		return !rv.Bool()
+	case reflect.String:
+		// a defined string type: the strings that are falsy as plain strings
+		return rv.String() == "" || rv.String() == "false"
 	}
 	return false
 }
